@@ -288,7 +288,7 @@ def mutate(t, rng):
         hs = [e for e in ev if e["e"] == "hdr" and e["res"] == "ok"]
         rng.choice(hs)["val"].append(121)                       # a header value that was not sent
     elif r < 0.9:
-        c = next(e for e in ev if e["e"] == "construct")
+        c = [e for e in ev if e["e"] in ("construct", "assign")][-1]
         c["target"] = c["target"] + [47]                        # another target than the one written
     else:
         c = next(e for e in ev if e["e"] == "construct")
@@ -314,7 +314,7 @@ def run(ctx):
     ctx.exhaustive = True
     ctx.extra["exhaustive_rule"] = "every sequence of <= %d octet-class symbols in each of 6 argument positions (method, uri, assigned method, assigned uri, header name, header value), one position at a time" % ctx.pick(2, 3)
     ctx.extra["per_field_exhaustive_scenarios"] = len(scns)
-    for _ in range(ctx.pick(600, 40000)):
+    for _ in range(ctx.pick(600, 20000)):
         scns.append(random_scn(ctx.rng))
     traces = [run_scn(s) for s in scns]
     ctx.note_traces(traces)
